@@ -444,6 +444,29 @@ fn gen_datum(rng: &mut Rng, depth: usize, out: &mut String) {
     }
 }
 
+/// fuzz text of one of the kinds used by C11 (shared with C06)
+pub fn fuzz_text(rng: &mut Rng, index: u64) -> String {
+    match index % 8 {
+        0 => random_unicode(rng),
+        1 | 2 => soup(rng),
+        3 | 4 => {
+            let base = if rng.bool() { prelude_slice(rng) } else { gen_sequence(rng).0 };
+            mutate(&base, rng)
+        }
+        5 => gen_sequence(rng).0,
+        _ => {
+            // mutation of a generated *program*
+            let s = crate::gen::session(rng, crate::gen::Opts::default(), true);
+            let t = crate::gen::text_of(&s.forms);
+            if rng.bool() {
+                mutate(&t, rng)
+            } else {
+                t
+            }
+        }
+    }
+}
+
 /// (text, number of top-level data)
 fn gen_sequence(rng: &mut Rng) -> (String, usize) {
     let n = 1 + rng.usize(4);
